@@ -34,11 +34,11 @@ static void *work(void *arg)
     r = r * 1103515245u + 12345u;
     config_init(&c);
     config_set_options(&c, (r >> 8) & 0x3f);
-    config_set_float_precision(&c, (r >> 16) % 12);
+    config_set_float_precision(&c, (r >> 16) % 20);     /* also beyond the documented 15 */
     config_set_tab_width(&c, (r >> 20) % 9);
     f = fopen(inc, "w"); fprintf(f, "inc_%d = %u;\ninc_s = \"t%d\";\n", j->id, r % 1000, j->id); fclose(f);
-    snprintf(text, sizeof text, "id = %d; pi = %d.%u; name = \"thread %d round %d\";\n@include \"%s\"\ngrp = { a = [1, 2, %u]; l = ( 1.5, \"x\", { y = 0x%X; } ); };\n",
-             j->id, j->id, r % 100000, j->id, round, inc, r % 77, r & 0xffff);
+    snprintf(text, sizeof text, "id = %d; pi = %d.%u; name = \"thread %d round %d\";\n@include \"%s\"\ngrp = { a = [1, 2, %u]; l = ( 1.5, \"x\", { y = 0x%X; } ); };\nhuge = %d.5e300; big = [ -%u.25e15, 1e22, %u.0e40 ];\n",
+             j->id, j->id, r % 100000, j->id, round, inc, r % 77, r & 0xffff, j->id + 1, r % 9000 + 1000, r % 97 + 1);
     fprintf(t, "read_string %d\n", config_read_string(&c, text));
     if (round % 3 == 1) { fprintf(t, "bad %d %s %d\n", config_read_string(&c, "a = 1;\na = ;"), config_error_text(&c), config_error_line(&c)); config_read_string(&c, text); }
     root = config_root_setting(&c);
@@ -63,11 +63,13 @@ int main(int argc, char **argv)
   char *line = NULL; size_t cap = 0; ssize_t n;
   if (argc > 1 && chdir(argv[1]) != 0) { perror("chdir"); return 2; }
   while ((n = getline(&line, &cap, stdin)) > 0) {
-    int nt, rounds, i, bad = -1; unsigned seed; struct job serial[MAXT], par[MAXT]; pthread_t th[MAXT]; size_t total = 0;
-    if (sscanf(line, "thrcase %d %d %u", &nt, &rounds, &seed) != 3 || nt < 1 || nt > MAXT) { printf("bad-op\n"); fflush(stdout); continue; }
-    for (i = 0; i < nt; i++) { serial[i] = (struct job){ i, rounds, seed, NULL, 0 }; work(&serial[i]); }
+    int nt, rounds, i, bad = -1, parfirst = 0; unsigned seed; struct job serial[MAXT], par[MAXT]; pthread_t th[MAXT]; size_t total = 0;
+    /* a 4th field "1" = run the threads BEFORE the serial reference runs (the very first use of the library is concurrent) */
+    if (sscanf(line, "thrcase %d %d %u %d", &nt, &rounds, &seed, &parfirst) < 3 || nt < 1 || nt > MAXT) { printf("bad-op\n"); fflush(stdout); continue; }
+    if (!parfirst) for (i = 0; i < nt; i++) { serial[i] = (struct job){ i, rounds, seed, NULL, 0 }; work(&serial[i]); }
     for (i = 0; i < nt; i++) { par[i] = (struct job){ i, rounds, seed, NULL, 0 }; pthread_create(&th[i], NULL, work, &par[i]); }
     for (i = 0; i < nt; i++) pthread_join(th[i], NULL);
+    if (parfirst) for (i = 0; i < nt; i++) { serial[i] = (struct job){ i, rounds, seed, NULL, 0 }; work(&serial[i]); }
     for (i = 0; i < nt; i++) {
       if (serial[i].len != par[i].len || memcmp(serial[i].out, par[i].out, par[i].len)) { if (bad < 0) bad = i; }
       total += par[i].len; free(serial[i].out); free(par[i].out);
